@@ -13,7 +13,7 @@ use serde_json::json;
 use std::process::Command;
 
 fn opts_for(pi: usize, r: &mut Rng) -> Opts {
-    Opts { fragment: false, fault_pct: if pi % 3 == 2 { 100 } else { 0 }, max_stanzas: 4, allow_print: false, universal: r.chance(1, 2), probe: false, scoped_heavy: pi % 4 == 1, keywordish_names: false }
+    Opts { fragment: false, fault_pct: if pi % 3 == 2 { 100 } else { 0 }, max_stanzas: 4, allow_print: false, universal: r.chance(1, 2), probe: false, scoped_heavy: pi % 4 == 1, keywordish_names: false, static_fault: 0 }
 }
 
 /// texts with one static fault (diagnostics must be reproducible too)
@@ -180,7 +180,7 @@ pub fn run(rep: &mut Report, tier: &str, seed: u64) {
             rep.count_n("thread-runs", threads * 6);
         }
         // (3) the model, once
-        let loaded = Loaded { program: crate::gen::dsl::Program { text: text.clone(), header: String::new(), stanzas: vec![], globals: vec![], stanza_count: 0, has_fault: false, features: vec![] }, file };
+        let loaded = Loaded { program: crate::gen::dsl::Program { text: text.clone(), header: String::new(), stanzas: vec![], globals: vec![], stanza_count: 0, has_fault: false, features: vec![], static_fault: None }, file };
         let mi = crate::execx::model_input(&loaded.file, &sources[0].tree, &sources[0].src, &infos[0]);
         runner.set_tree(&infos[0], &sources[0].src);
         runner.table = crate::oracle::OracleTable::new();
